@@ -202,7 +202,8 @@ Date::Date(const String& str, const String& fmt)
 				_t = 0;
 				return;
 			}
-			s++;
+			if (*s != '\0') // '?' must not step over the end of the string
+				s++;
 		}
 	}
 	construct(LOCAL, year, month, day, hour, minute, second);
